@@ -58,24 +58,33 @@ func roRun(prop, tier string, c Case, w *Worker) (res Result) {
 	res.setAdd("configs", cfg.String())
 	// 0. a read-only instance over nothing at all must not create a tape
 	if c.Seed%7 == 0 {
-		ed := w.NewDir("c15empty")
-		ecfg := cfg
-		ecfg.ReadOnly, ecfg.NoWriteBE = true, p.NoWBE
-		if er, err := NewRig(ed, ecfg); err == nil {
+		for vi, pre := range [][]byte{nil, {}, make([]byte, 1024), []byte("this is not a tar archive, just some bytes that happen to be on the drive\n")} {
+			ed := w.NewDir("c15empty")
+			ecfg := cfg
+			ecfg.ReadOnly, ecfg.NoWriteBE = true, p.NoWBE
+			er, err := NewRig(ed, ecfg)
+			if err != nil {
+				continue
+			}
+			if pre != nil {
+				_ = os.WriteFile(er.Drive, pre, 0o666)
+			}
+			before := fileDigest(er.Drive)
 			ierr := er.Init()
 			er.LocksSettled()
-			if _, serr := os.Stat(er.Drive); serr == nil {
-				res.violate("c15|empty-drive-created", fmt.Sprintf("[%s] Initialize of a read-only filesystem over a missing drive (err=%v) created the drive file", ecfg, ierr))
-				er.Close()
-				return
-			}
-			if ierr == nil {
-				res.violate("c15|empty-drive-initialized", fmt.Sprintf("[%s] Initialize of a read-only filesystem over a missing drive succeeded", ecfg))
-				er.Close()
-				return
-			}
+			after := fileDigest(er.Drive)
+			rows, _ := DumpRows(er.DB)
 			er.Close()
-			res.count("empty_drive_opens_checked", 1)
+			what := []string{"a missing drive", "an empty drive file", "a zero-filled drive file", "a drive file holding no tar archive"}[vi]
+			if before != after {
+				res.violate("c15|blank-drive-changed", fmt.Sprintf("[%s] Initialize of a read-only filesystem over %s (err=%v) changed the drive: %s -> %s", ecfg, what, ierr, before, after))
+				return
+			}
+			if ierr == nil || len(rows) > 0 {
+				res.violate("c15|blank-drive-initialized", fmt.Sprintf("[%s] Initialize of a read-only filesystem over %s returned err=%v and left %d index rows", ecfg, what, ierr, len(rows)))
+				return
+			}
+			res.count("blank_drive_opens_checked", 1)
 		}
 	}
 	// 1. populate with a writable instance
